@@ -49,3 +49,10 @@ func init() {
 	propSpecs["C15"] = &PropSpec{ID: "C15", Roots: []string{"(vbint).fill", "(vbint).width", "(vbint).fillProp", "(*vbint).UnmarshalBinary", "(*vbint).ReadFrom", "lemmaVbRoundTrip"},
 		Note: "encoder: width and every byte equal the closed-form specification (seven-bit groups, least significant first, continuation bit on all but the last) for all values; decoders: result equals the specification-level decoder specVbOK/specVbValue on every byte sequence (so the two decoders agree), sequences ending on a continuation byte or continuing past four bytes are rejected; round trip and minimality as a lemma over the spec functions for all v <= 268435455"}
 }
+
+func init() {
+	roots := []string{"(*fixedHeader).ReadRemaining", "ReadPacket", "(*Publish).QoS", "(*Publish).Duplicate", "(*Publish).Retain"}
+	roots = append(roots, methodsOf(packetTypes, "fill")...)
+	propSpecs["C16"] = &PropSpec{ID: "C16", Roots: roots,
+		Note: "ReadRemaining: for all 256 values of the first byte (one bit-vector variable) the dynamic type of the returned packet is the one selected by the upper nibble (Undefined for 0) and, for types 1..15, its stored first byte equals the received one (UnmarshalBinary of every type is proved not to change it); Publish.QoS/Duplicate/Retain decode bits 2-1, 3 and 0; every packet's fill writes the stored first byte at offset 0, so re-encoding reproduces it"}
+}
